@@ -278,6 +278,10 @@ def _ref_prod(t, a, p):
     n = len(x)
     while n > 1:
         h = [widen(iv_mul(x[i], x[i + 1]), t['u']) for i in range(n % 2, n, 2)]
+        # precondition: every intermediate product of the (public) multiplication tree fits the type, not only the
+        # final one -- each is truncated with a mask sized for an l-bit value
+        if any(iv_abs_max(v) >= t['bound'] / 2 for v in h):
+            raise OverflowError
         x[n % 2:] = h
         n = len(x)
     return [x[0]]
